@@ -12,8 +12,10 @@ import (
 	"context"
 	"fmt"
 	"io"
+	"os"
 	"path/filepath"
 	"strings"
+	"syscall"
 	"testing"
 	"testing/synctest"
 	"time"
@@ -49,6 +51,7 @@ type c20RetCase struct {
 	overlap  bool
 	ends     []time.Duration // one per live session; c20Never = never ends
 	cancelAt time.Duration   // c20Never = the next reload never comes
+	succ     bool            // the new generation is passed as successor (its retirement clean-up runs)
 }
 
 func (c c20RetCase) idleAt() time.Duration {
@@ -127,8 +130,8 @@ func c20Retire(t *testing.T, dir string, c c20RetCase) (string, string) {
 	if c.cancelAt != c20Never {
 		cancelS = c20Dur(c.cancelAt)
 	}
-	op := fmt.Sprintf("retire zero=%s age=%d abort=%s overlap=%s n=%d idle=%s cancel=%s",
-		c20B(c.zero), int64(c.age), c20B(c.abort), c20B(c.overlap), len(c.ends), c20Dur(idle), cancelS)
+	op := fmt.Sprintf("retire zero=%s age=%d abort=%s overlap=%s n=%d idle=%s cancel=%s succ=%s",
+		c20B(c.zero), int64(c.age), c20B(c.abort), c20B(c.overlap), len(c.ends), c20Dur(idle), cancelS, c20B(c.succ))
 	var res string
 	progPath := filepath.Join(dir, "dae.retire.progress")
 	synctest.Test(t, func(t *testing.T) {
@@ -141,15 +144,23 @@ func c20Retire(t *testing.T, dir string, c c20RetCase) (string, string) {
 		beginReloadProxyFailureSuppression()
 		_ = writeSignalProgressFile(progPath, consts.ReloadDone, "OK")
 		if c.zero {
-			m.setPendingReloadMetadata(time.Time{}, 0)
+			m.setPendingReloadMetadata(time.Time{}, 1)
 		} else {
-			m.setPendingReloadMetadata(time.Now().Add(-c.age), 0)
+			m.setPendingReloadMetadata(time.Now().Add(-c.age), 1)
+		}
+		var succBuf strings.Builder
+		var successor *control.ControlPlane
+		if c.succ {
+			sl := logrus.New()
+			sl.SetLevel(logrus.DebugLevel)
+			sl.SetOutput(&succBuf)
+			successor = control.VerifC20NewSuccessor(sl)
 		}
 		plane := control.VerifC20NewDrainPlane()
 		timers := c20OpenSessions(plane, c.ends)
 		oldCancelled := false
 		start := time.Now()
-		m.startControlPlaneRetirement(log, plane, nil, func() { oldCancelled = true }, c.abort, c.overlap)
+		m.startControlPlaneRetirement(log, plane, successor, func() { oldCancelled = true }, c.abort, c.overlap)
 		m.mu.Lock()
 		done := m.pendingRetirementDone
 		m.mu.Unlock()
@@ -171,8 +182,9 @@ func c20Retire(t *testing.T, dir string, c c20RetCase) (string, string) {
 		synctest.Wait()
 		code, content, _ := readSignalProgressFile(progPath)
 		_ = content
-		res = fmt.Sprintf("done=%s aborted=%s oldcancel=%s final=p=%s a=%s s=%d f=%s", at, c20B(plane.VerifC20Aborted()),
-			c20B(oldCancelled), c20B(m.reloadPending.Load()), c20B(m.reloadActive.Load()),
+		cleaned := strings.Contains(succBuf.String(), "No stale datapath state remained after generation retirement")
+		res = fmt.Sprintf("done=%s aborted=%s oldcancel=%s cleanup=%s final=p=%s a=%s s=%d f=%s", at, c20B(plane.VerifC20Aborted()),
+			c20B(oldCancelled), c20B(cleaned), c20B(m.reloadPending.Load()), c20B(m.reloadActive.Load()),
 			outbounddialer.VerifC20Suppression(), c20ProgClass(progPath))
 		if at != "never" {
 			// the mute window: still muted right after the release and until reloadFailureQuiesce has
@@ -201,6 +213,68 @@ func c20Retire(t *testing.T, dir string, c c20RetCase) (string, string) {
 	return op, res
 }
 
+// c20ReadyWait runs the real waitReloadReadyOrSignal in a synctest bubble: the Serve goroutine
+// reports at reportAt (c20Never = never), a termination signal arrives at termAt, and reload / suspend
+// / hang-up signals are delivered at the given times in between.
+func c20ReadyWait(t *testing.T, timeout, reportAt time.Duration, reportOk bool, termAt time.Duration, swallow []time.Duration) (string, string) {
+	opt := func(d time.Duration) string {
+		if d == c20Never {
+			return "none"
+		}
+		return c20Dur(d)
+	}
+	op := fmt.Sprintf("rwait timeout=%d report=%s ok=%s term=%s nsig=%d", int64(timeout), opt(reportAt), c20B(reportOk), opt(termAt), len(swallow))
+	var res string
+	synctest.Test(t, func(t *testing.T) {
+		sigs := make(chan os.Signal) // unbuffered: a send returns when the wait has taken the signal
+		ready := make(chan bool, 1)
+		stop := make(chan struct{})
+		deliver := func(at time.Duration, sg os.Signal) *time.Timer {
+			return time.AfterFunc(at, func() {
+				select {
+				case sigs <- sg:
+				case <-stop:
+				}
+			})
+		}
+		var timers []*time.Timer
+		for i, at := range swallow {
+			timers = append(timers, deliver(at, []os.Signal{syscall.SIGUSR1, syscall.SIGUSR2, syscall.SIGHUP}[i%3]))
+		}
+		if termAt != c20Never {
+			timers = append(timers, deliver(termAt, syscall.SIGTERM))
+		}
+		if reportAt != c20Never {
+			timers = append(timers, time.AfterFunc(reportAt, func() { ready <- reportOk }))
+		}
+		start := time.Now()
+		type out struct {
+			r reloadReadyWaitResult
+		}
+		ch := make(chan out, 1)
+		go func() {
+			r, _ := waitReloadReadyOrSignal(c20DiscardLog(), sigs, ready, timeout)
+			ch <- out{r}
+		}()
+		wd := time.NewTimer(c20Watchdog)
+		select {
+		case o := <-ch:
+			res = fmt.Sprintf("at=%d res=%s", int64(time.Since(start)), []string{"ready", "failed", "signal", "timeout"}[o.r])
+		case <-wd.C:
+			res = "at=never res=none"
+			ready <- false
+			<-ch
+		}
+		wd.Stop()
+		close(stop)
+		for _, tm := range timers {
+			tm.Stop()
+		}
+		synctest.Wait()
+	})
+	return op, res
+}
+
 func c20RetireStream(t *testing.T, st *VStats, r *VRand) int {
 	out := VOpenStream("c20ret")
 	defer out.Close()
@@ -221,8 +295,8 @@ func c20RetireStream(t *testing.T, st *VStats, r *VRand) int {
 	}
 	emit("const total", fmt.Sprintf("total=%d", int64(total)))
 	emit("const quiesce", fmt.Sprintf("quiesce=%d", int64(outbounddialer.VerifC20Quiesce())))
-	emit("const readywait", fmt.Sprintf("positive=%s", c20B(reloadReadyTimeout > 0)))
-	emit("const preparewait", fmt.Sprintf("positive=%s", c20B(reloadPrepareTimeout > 0)))
+	emit("const readywait", fmt.Sprintf("positive=%s ns=%d", c20B(reloadReadyTimeout > 0), int64(reloadReadyTimeout)))
+	emit("const preparewait", fmt.Sprintf("positive=%s ns=%d", c20B(reloadPrepareTimeout > 0), int64(reloadPrepareTimeout)))
 
 	// (a) remainingReloadRetirementBudget
 	ages := []time.Duration{-3 * time.Second, 0, 1, 2 * time.Second, total - time.Second, total - 1, total, total + 1, total + 5*time.Second}
@@ -234,6 +308,31 @@ func c20RetireStream(t *testing.T, st *VStats, r *VRand) int {
 				rem = remainingReloadRetirementBudget(time.Now().Add(-age), b)
 			})
 			emit(fmt.Sprintf("budget 0 %d %d", int64(age), int64(b)), fmt.Sprintf("rem=%d", int64(rem)))
+		}
+	}
+
+	// (a') waitReloadReadyOrSignal: every time-out x report x termination x consumed signals
+	for _, tmo := range []time.Duration{-time.Second, 0, 1, time.Second, reloadReadyTimeout} {
+		ref := tmo
+		if ref < time.Millisecond {
+			ref = 3 * time.Second
+		}
+		for _, rep := range []struct {
+			at time.Duration
+			ok bool
+		}{{c20Never, true}, {ref / 2, true}, {ref / 2, false}, {ref, true}, {ref + time.Second, false}} {
+			for _, term := range []time.Duration{c20Never, ref / 3, ref + 2*time.Second} {
+				for _, sw := range [][]time.Duration{nil, {ref / 5, ref / 4, ref/4 + 1}} {
+					if tmo <= 0 && rep.at == c20Never && term == c20Never {
+						// without a timer nothing ever ends this wait: one line is enough
+						if sw != nil {
+							continue
+						}
+					}
+					op, res := c20ReadyWait(t, tmo, rep.at, rep.ok, term, sw)
+					emit(op, res)
+				}
+			}
 		}
 	}
 
@@ -308,7 +407,7 @@ func c20RetireStream(t *testing.T, st *VStats, r *VRand) int {
 								cancelAt = ref + 3*time.Second
 							}
 							cases = append(cases, c20RetCase{zero: zero, age: age, abort: fl.abort, overlap: fl.overlap,
-								ends: c20Ends(ns, pat, ref), cancelAt: cancelAt})
+								ends: c20Ends(ns, pat, ref), cancelAt: cancelAt, succ: len(cases)%2 == 1})
 						}
 					}
 				}
@@ -334,6 +433,9 @@ func c20RetireStream(t *testing.T, st *VStats, r *VRand) int {
 			b = total
 		}
 		st.Inc("retire_budget:" + c20BudgetClass(b, total))
+		if c.succ {
+			st.Inc("retire_with_successor")
+		}
 		if strings.HasPrefix(res, "done=never") {
 			st.Inc("RETIREMENT_NEVER_DONE")
 		}
@@ -358,7 +460,7 @@ func c20RetireStream(t *testing.T, st *VStats, r *VRand) int {
 		if r.Intn(3) == 0 {
 			cancelAt = time.Duration(1+r.Intn(int(12*time.Second/time.Millisecond))) * time.Millisecond
 		}
-		c := c20RetCase{zero: r.Intn(12) == 0, age: age, abort: r.Intn(6) == 0, overlap: r.Intn(6) != 0, ends: ends, cancelAt: cancelAt}
+		c := c20RetCase{zero: r.Intn(12) == 0, age: age, abort: r.Intn(6) == 0, overlap: r.Intn(6) != 0, ends: ends, cancelAt: cancelAt, succ: r.Intn(2) == 0}
 		op, res := c20Retire(t, dir, c)
 		emit(op, res)
 		st.Inc("retire_random")
